@@ -339,7 +339,12 @@ def c10_state(ctx):
     state_discipline(ctx, ('bespokeasm.assembler.bytecode', 'bespokeasm.assembler.model.instruction_macro', 'bespokeasm.assembler.model.instruction_parser', 'bespokeasm.assembler.model.operand', 'bespokeasm.assembler.model.instruction_set'))
 
 
-RULES = [c10_1, c10_2, c10_3, c10_variants, c10_4, c10_state]
+def c10_parts(ctx):
+    """@ARG(n) is the operand's argument text: an operand has an argument part exactly when its configuration gives it one (C01.3)."""
+    from rules.c01 import c01_3
+    c01_3(ctx)
+
+RULES = [c10_1, c10_2, c10_3, c10_variants, c10_4, c10_state, c10_parts]
 
 _A = 'assembler/bytecode/assembled.py'
 _M = 'assembler/bytecode/generator/macro.py'
